@@ -13,6 +13,7 @@ import re
 import text_gen as g
 from markup_util import run_cases, impl_expand, canon_cfg
 import text_tree
+import attrtext_gen as atg
 
 HERE = os.path.dirname(os.path.abspath(__file__))
 CORPUS = os.path.join(os.path.dirname(os.path.dirname(HERE)), 'corpus', 'C04')
@@ -230,6 +231,65 @@ def gen_wrap(ctx, n):
     return out
 
 
+def gen_wrap_nested(ctx, n):
+    """X* where X holds explicit repeaters `*N` at several depths and `$#` at several depths (text and attribute
+    positions), X an element anywhere in the abbreviation: every copy of X carries its line at each `$#` of every
+    explicit copy below it; without `$#` the line goes to the deepest last element of the copy (the last explicit
+    copy of the last child chain).  About a third of the cases add a maxRepeat limit or a second implicit repeater
+    (`ul*2>li*`: only the first receives the lines) -- outside the statement's wording: model/implementation
+    comparison only (the Coq spec unroll_w of C04_wrap_implicit is what the model computes there)."""
+    rng = ctx.rng
+    out = []
+    two = ['one', ' ', 'two ']
+    for abbr, exp in (('li*>b*2>i{$#}', '<li><b><i>one</i></b><b><i>one</i></b></li><li><b><i>two</i></b><b><i>two</i></b></li>'),
+                      ('li*>b*2>i', '<li><b><i></i></b><b><i>one</i></b></li><li><b><i></i></b><b><i>two</i></b></li>'),
+                      ('ul>li[title=$#]*>b{$#}*2+em*2>i{[$#]}*2',
+                       ''.join('<li title="%s"><b>%s</b><b>%s</b><em><i>[%s]</i><i>[%s]</i></em><em><i>[%s]</i><i>[%s]</i></em></li>'
+                               % ((l,) * 7) for l in ('one', 'two')).join(['<ul>', '</ul>'])),
+                      ('(p>q*3)*', '<p><q></q><q></q><q>one</q></p><p><q></q><q></q><q>two</q></p>')):
+        out.append(case('wrap:nested-explicit', abbr, [exp], plain({'text': two})))
+    for abbr, cfg in (('ul*2>li*', {}), ('li*>b*', {}), ('li*>b*3', {'maxRepeat': 4}), ('li*>b*2>i{$#}', {'maxRepeat': 3}),
+                      ('(li>b{$#}*2)*+p{$#}', {}), ('p{$#}+li*', {}), ('li*>b*2', {'maxRepeat': 1})):
+        out.append(case('wrap:nested-limit', abbr, None, plain(dict(cfg, text=two))))
+    for _ in range(n):
+        lines = g.rand_lines(rng)
+        x = g.rand_w(rng, 0, False)
+        for _try in range(6):
+            if x.kids:
+                break
+            x = g.rand_w(rng, 0, False)
+        x.star = True
+
+        def deco(nd, p):
+            for k in nd.kids:
+                if rng.random() < p:
+                    k.rep = rng.choice([2, 2, 3])
+                deco(k, p)
+        deco(x, rng.choice([0.3, 0.6, 1.0]))
+        if rng.random() < 0.7:
+            g.sprinkle_ph(rng, x, rng.choice([0.3, 0.6, 1.0]))
+        roots = [x]
+        if rng.random() < 0.5:
+            roots = [g.W(rng.choice(g.WNAMES), kids=[g.W('em')] * rng.choice([0, 1]) + [x])]
+        if rng.random() < 0.3:
+            roots.append(g.W('q', text='t'))
+        abbr = g.render_roots(roots)
+        k = rng.random()
+        if k < 0.2:
+            cfg = plain({'text': lines, 'maxRepeat': rng.randint(1, 7)})
+            out.append(case('wrap:nested-limit', abbr, None, cfg))
+        elif k < 0.3:
+            # a second implicit repeater somewhere below or beside
+            extra = rng.choice(['%s+p*', '%s+p{$#}*', 'div*2>%s', '(%s)*2', '%s>s*'])
+            out.append(case('wrap:nested-limit', extra % abbr, None, plain({'text': lines})))
+        else:
+            pieces = g.pieces_x(g.expect_wrap(roots, lines))
+            out.append(case('wrap:nested-explicit' + ('+$#' if g.has_ph(x) else ''), abbr, pieces, plain({'text': lines})))
+            if any(l.strip() for l in lines):
+                ctx.nontrivial((abbr, tuple(lines)))
+    return out
+
+
 def gen_outside(ctx, n):
     """Inputs outside the statement's domain (unbalanced braces, unescaped `$`, `$#` without or outside the
     implicit repeater, several implicit repeaters, text given as one string, line breaks inside a wrap line):
@@ -265,10 +325,11 @@ def tree_tie(ctx, cases):
     trees = []
     for abbr, cfg, meta in cases:
         text = cfg.get('text')
-        t = text_tree.impl_tree(abbr, text)
+        mr = cfg.get('maxRepeat')
+        t = text_tree.impl_tree(abbr, text, mr)
         trees.append(t)
         ctx.count_eval()
-        wires.append(text_tree.enc_case(abbr, text))
+        wires.append(text_tree.enc_case(abbr, text, mr))
         # tree-level oracle: `p{T}` yields the single node p whose value is [unescape T]
         if meta.get('kind') in ('text', 'exh:text') and abbr.startswith('p{') and abbr.endswith('}'):
             V = g.unescape(abbr[2:-1])
@@ -292,20 +353,46 @@ def tree_tie(ctx, cases):
     c = ctx.cov['correspondence'].setdefault('abbreviation_tree', {'cases': 0, 'disagreements': 0})
     c['cases'] += len(wires)
     c['disagreements'] += dis
+    # the SPEC of C04_wrap_implicit / C02_limit_full_with_wrap (convert_w: unroll_w + place_line + finish_w, extracted
+    # from proofs/WrapFull.v by run/WrapRun.v) against the implementation's tree: every case, every text, every limit
+    smodel = ctx.model('wrap')
+    sdis = 0
+    if smodel is not None:
+        outs = smodel.run(wires)
+        for (abbr, cfg, meta), t, w in zip(cases, trees, outs):
+            sp = text_tree.decode_tree(w)
+            if t[0] == 'recursion':
+                continue
+            if t[0] != 'ok' and sp[0] != 'ok' and t[0] == sp[0] == 'internal':
+                continue
+            if sp != t:
+                # the spec is total where the converter raises (a Repeater token inside a value cannot come out of
+                # the tokenizer; `$#` never raises after fix fb6dafb): any difference is reported
+                sdis += 1
+                if sdis <= 5:
+                    ctx.say('DISAGREE C04 wrap spec %r text=%r maxRepeat=%r\n  impl %r\n  spec %r'
+                            % (abbr, cfg.get('text'), cfg.get('maxRepeat'), str(t)[:400], str(sp)[:400]))
+                    ctx.broken.append({'kind': 'correspondence', 'file': 'wrap-spec', 'input': abbr, 'text': cfg.get('text'),
+                                       'maxRepeat': cfg.get('maxRepeat'), 'impl': repr(t)[:300], 'spec': repr(sp)[:300]})
+    c = ctx.cov['correspondence'].setdefault('wrap_spec_convert_w', {'cases': 0, 'disagreements': 0})
+    c['cases'] += len(wires) if smodel is not None else 0
+    c['disagreements'] += sdis
 
 
 # ---------------------------------------------------------------- run
 def run(ctx):
-    ok = ctx.build(['props/C04.vo', 'run/MarkupRun.vo', 'run/TextRun.vo'])
+    ok = ctx.build(['props/C04.vo', 'props/C04Wrap.vo', 'run/MarkupRun.vo', 'run/TextRun.vo', 'run/WrapRun.vo'])
     if ok:
         ctx.obligations('props/C04.v')
+        ctx.obligations('props/C04Wrap.v')
     model = ctx.model('markup') if ok else None
     ctx.cov['rule'] = (
         'payloads generated from the whole ASCII punctuation + white space + unicode (incl. U+2028, U+0085, form feed), escaped so '
         'that braces balance, written at every text position (element text, bare text node, quoted / unquoted / expression '
         'attribute value); all payloads up to the stated length over the special characters exhaustively; wrap line lists with '
         'blank lines, padded lines and lines that look like abbreviations / numbering / fields, abbreviation trees with at most one '
-        'implicit repeater on an element or group, with `$#` in text and attribute positions or without; non-trivial = non-empty '
+        'implicit repeater on an element or group, with `$#` in text and attribute positions or without, and (wrap:nested-*) explicit '
+        'repeaters at several depths inside the implicitly repeated element with `$#` at several depths; non-trivial = non-empty '
         'payload / at least one non-blank line; distinct by (abbreviation, lines). Oracle: the output predicted from the payload by '
         'the statement (unescape; per-line placement) must equal emmet.expand under a configuration that adds nothing between tags. '
         'Outside-domain inputs are compared model vs implementation only.')
@@ -315,7 +402,9 @@ def run(ctx):
     cases += gen_random_payloads(ctx, 2500 if quick else 40000)
     cases += gen_indent(ctx, 600 if quick else 10000)
     cases += gen_wrap(ctx, 1500 if quick else 25000)
+    cases += gen_wrap_nested(ctx, 800 if quick else 12000)
     cases += gen_outside(ctx, 1500 if quick else 30000)
+    inplace_text_sequences(ctx)
     for _, _, meta in cases:
         ctx.cover('kind:' + meta['kind'])
     # 1. oracle + model comparison on every callback event, configuration as generated.
@@ -348,6 +437,11 @@ def run(ctx):
     # 3. the abbreviation tree itself (tokenize + parse + convert: what C04_text_literal, C04_wrap_* speak about):
     # implementation vs extracted parse_abbr on every case, plus the tree-level oracle for plain text elements
     tree_tie(ctx, cases)
+    # 4. attribute positions at tree level (C04_attr_value_literal, C04_group_bracket_attr): `name[n<value>]` for every
+    # value form over the whole alphabets of the theorem; oracle = the written value against emmet.abbreviation.parse
+    atg.run_stream(ctx, 'C04', 0, 0, 1500 if quick else 40000, kinds={'value', 'textelem'}, n_textelem=700 if quick else 20000)
+    # 5. text on elements that carry attributes, whole pipeline (C04_expand_text_element): <name attr...>TEXT</name>
+    atg.run_expand_stream(ctx, 'C04', 400 if quick else 10000, text_only=True)
     k = 0
     for (abbr, cfg, meta), r in zip(cases, impl):
         if meta.get('pieces') and meta['kind'].startswith(('wrap', 'attr', 'text')) and k < 8 and len(abbr) < 60:
@@ -355,11 +449,60 @@ def run(ctx):
             ctx.sample({'abbr': abbr, 'text': cfg.get('text'), 'kind': meta['kind'], 'output': r[1][:160] if r[0] == 'ok' else r})
 
 
+def inplace_text_sequences(ctx):
+    """`text` lines supplied as ONE list object that the caller edits in place between calls (an editor's buffer):
+    every call must use the lines the list holds at that moment."""
+    from emmet import expand
+    edits = [lambda L: L.append('gamma'), lambda L: L.__setitem__(0, 'ALPHA'), lambda L: L.pop(), lambda L: L.insert(1, '  '),
+             lambda L: L.extend(['x y', '$#', 'ul>li*2']), lambda L: L.clear(), lambda L: L.append('only')]
+    n = 0
+    for abbr in ('ul>li*', 'ul>li[title=$#]{[$#]}*', 'div>p*>b', 'ul>li'):
+        L = ['alpha', 'beta']
+        cfg = plain({'text': L})
+        cfg['text'] = L                     # the same object in every call
+        steps = []
+        for step in range(len(edits) + 1):   # first the whole sequence on the one list object ...
+            try:
+                got = expand(abbr, cfg)
+            except Exception as e:  # noqa
+                got = repr(e)
+            steps.append((list(L), got))
+            if step < len(edits):
+                edits[step](L)
+        for step, (snapshot, got) in enumerate(steps):   # ... then what each call should have produced
+            want = expand(abbr, plain({'text': list(snapshot)}))
+            n += 1
+            ctx.count_eval()
+            ctx.cover('wrap:list-edited-in-place')
+            nb = [l.strip() for l in snapshot if l.strip()]
+            bad = None
+            if got != want:
+                bad = 'with the caller\'s list object (holding %r at that call) the result is %r, with an equal fresh list %r' % (snapshot, got, want)
+            elif abbr == 'ul>li*' and nb and isinstance(got, str) and got.count('<li>') != len(nb):
+                bad = '%d non-blank lines, %d copies' % (len(nb), got.count('<li>'))
+            if bad:
+                ctx.property_failure('C04:list-edited-in-place:%s:%d' % (abbr, step),
+                                     'C04 expand(%r) with wrap lines held in one list edited in place between calls (call %d): %s' % (abbr, step, bad),
+                                     {'component': 'C04-inplace', 'abbr': abbr, 'step': step, 'why': bad})
+                break
+    ctx.cov['inplace_text_sequences'] = n
+
+
 def replay(ctx, obj):
     rp = obj.get('replay', {})
     if 'abbr' not in rp:
         print('replay names a broken obligation, no input: %s' % str(rp)[:300])
         return 1
+    if rp.get('component') == 'C04-inplace':
+        n0 = len(ctx.violations)
+        inplace_text_sequences(ctx)
+        bad = [v for v in ctx.violations[n0:]]
+        print('wrap lines in one list edited in place between calls: %s' % (bad[0]['what'] if bad else 'property holds'))
+        return 1 if bad else 0
+    if rp.get('component') == 'text-tree':
+        return atg.replay(rp)
+    if rp.get('component') == 'C04expand':
+        return atg.replay_expand(rp)
     r = impl_expand(rp['abbr'], rp['config'])
     bad = oracle(rp['abbr'], rp['config'], rp.get('meta'), r)
     print('expand(%r, %s) -> %r' % (rp['abbr'], canon_cfg(rp['config']), r))
